@@ -158,6 +158,10 @@ theorem words_ok :
 
 /-! ### the grammar `G₀` of the discrimination theorem -/
 
+def TyExpr.isArglist : TyExpr → Bool
+  | .arglist _ => true
+  | _ => false
+
 def clsObjOK (c : Bytes) : Bool := !c.contains 58 && c.contains 46
 def clsArrOK (c : Bytes) : Bool := !c.contains 58 && !c.contains 46 && !fixedWords.contains c
 
@@ -168,7 +172,7 @@ mutual
 def inG0 : PyVal → Bool
   | .sc a => decide a.WF
   | .ndarray c d s _ => clsArrOK c && !d.contains 58 && !s.contains 58
-  | .ty _ => true
+  | .ty t => !t.isArglist    -- a bare argument list is not a type
   | .seq _ k xs => (k != SeqKind.code) && inG0List xs
   | .set _ _ xs => inG0List xs
   | .dict _ items => items.all (fun kv => decide kv.1.WF) && inG0Items items
